@@ -1157,6 +1157,7 @@ def FIBER(
         if (beta_2 == 0 and beta_3 == 0) or gamma == 0
         else phi_max / (gamma * P_tot(A)).max()
     )
+    h = min(h, length)  # the first step can not be longer than the fiber (low power or all-zero input)
 
     x_length = h
 
